@@ -51,8 +51,11 @@ PROPERTIES = {
                      # the v1marshaler decode paths after a restart (the cache fills with decoded nodes)
                      [H("HarnessC02a", b(N=3, K1=1, CACHE=1, PERSISTFIRST=1, FRESHCACHE=1, HREQ=-1, TMASK=12, FMT=f), sample_every=200) for f in (1, 2)] +
                      # no persist between the captures (clone, cursor) and the later writes: the cursor is opened right after the last build insert
-                     [H("HarnessC02a", b(N=3, K1=1, CACHE=0, PERSISTFIRST=0, HREQ=-1, TMASK=3, NOROOT=1), sample_every=100)],
-            "thorough": [H("HarnessC02a", b(N=3, K1=1, CACHE=c, PERSISTFIRST=p, HREQ=-1, TMASK=15), sample_every=500) for c in (0, 1, 2) for p in (0, 1)] +
+                     [H("HarnessC02a", b(N=3, K1=1, CACHE=0, PERSISTFIRST=0, HREQ=-1, TMASK=3, NOROOT=1), sample_every=100)] +
+                     # directed: a re-loaded height-1 tree (nodes from the shared cache) gets a delete and then another delete on the same handle (SEQ.c02=11):
+                     # when the first one empties the top node, the tree shrinks onto its child and the second one works on what shrink built
+                     [H("HarnessC02a", {**b(N=3, K1=2, CACHE=1, PERSISTFIRST=1, HREQ=1, TMASK=4), "SEQ.c02": 11}, sample_every=500)],
+            "thorough": [H("HarnessC02a", {**b(N=3, K1=2, CACHE=1, PERSISTFIRST=1, HREQ=1, TMASK=4), "SEQ.c02": 10}, sample_every=1000)] + [H("HarnessC02a", b(N=3, K1=1, CACHE=c, PERSISTFIRST=p, HREQ=-1, TMASK=15), sample_every=500) for c in (0, 1, 2) for p in (0, 1)] +
                         [H("HarnessC02a", b(N=2, K1=2, CACHE=1, PERSISTFIRST=1, HREQ=-1, TMASK=15), sample_every=2000)],
         },
         "must_reach": ["C02.clone.iter-seq", "C02.root-shared-cache.iter-seq", "C02.root-no-cache.iter-seq", "C02.cursor.seq", "C02.original.iter-seq"],
@@ -90,7 +93,9 @@ PROPERTIES = {
         "runs": {
             "quick": [H("HarnessC06a", b(N=2, K=2, MODE=m)) for m in (0, 1, 2, 3, 4, 5, 6)] + [H("HarnessC06a", b(N=2, K=2, MODE=m, KEEP=1)) for m in (1, 3)] +
                      # pointer-typed values: equal under reflect.DeepEqual, never identical across two decodes
-                     [H("HarnessC06p", b(N=3, MODE=m)) for m in (0, 1)] + [H("HarnessC06a", b(N=3, K=1, MODE=7))] + [H("HarnessC06a", b(N=17, K=1, MODE=1, Lmax=4, LRULER=1, CONCRETEKEYS=1), sample_every=10, max_steps=30000000)],
+                     [H("HarnessC06p", b(N=3, MODE=m)) for m in (0, 1)] + [H("HarnessC06a", b(N=3, K=1, MODE=7))] +
+                     # CMPSCALE: the key order returns -3/0/+3 (only the sign of a comparison is specified): unrelated and related pairs
+                     [H("HarnessC06a", b(N=2, K=2, MODE=m, CMPSCALE=3)) for m in (0, 2, 3)] + [H("HarnessC06a", b(N=17, K=1, MODE=1, Lmax=4, LRULER=1, CONCRETEKEYS=1), sample_every=10, max_steps=30000000)],
             "thorough": [H("HarnessC06a", b(N=3, K=2, MODE=m), sample_every=300) for m in (0, 1, 2, 3)] + [H("HarnessC06a", b(N=3, K=3, MODE=m), sample_every=300) for m in (4, 5, 6)] + [H("HarnessC06a", b(N=3, K=2, MODE=7), sample_every=300), H("HarnessC06a", b(N=4, K=1, MODE=7), sample_every=300)] +
                         [H("HarnessC06a", b(N=4, K=1, MODE=m), sample_every=300) for m in (0, 1)],
         },
@@ -101,7 +106,7 @@ PROPERTIES = {
     "C07": {
         "runs": {
             # KEEP=1: the versions are the in-process handles that have just been persisted (root = a name, or nil when emptied by Delete), not re-loaded trees
-            "quick": [H("HarnessC07a", b(N=2, K=2, MODE=m, KEEP=1)) for m in (1, 3)] + [H("HarnessC07a", b(N=3, K=1, MODE=1, FAULT=6))] + [H("HarnessC07a", b(N=3, K=1, MODE=1)), H("HarnessC07a", b(N=3, K=2, MODE=3)), H("HarnessC07a", b(N=3, K=2, MODE=7)), H("HarnessC07a", b(N=4, K=3, MODE=8)), H("HarnessC07a", b(N=3, K=4, MODE=9)),
+            "quick": [H("HarnessC07a", b(N=2, K=2, MODE=m, KEEP=1)) for m in (1, 3)] + [H("HarnessC07a", b(N=3, K=1, MODE=1, FAULT=6))] + [H("HarnessC07a", b(N=3, K=1, MODE=1)), H("HarnessC07a", b(N=3, K=2, MODE=3)), H("HarnessC07a", b(N=3, K=2, MODE=3, CMPSCALE=3)), H("HarnessC07a", b(N=3, K=2, MODE=7)), H("HarnessC07a", b(N=4, K=3, MODE=8)), H("HarnessC07a", b(N=3, K=4, MODE=9)),
                       # directed: concrete 33-entry tree of height 5 (ruler layers), one symbolic modification (any key, any layer <= 5)
                       H("HarnessC07a", b(N=33, K=1, MODE=1, LRULER=1, CONCRETEKEYS=1, Lmax=5), sample_every=20, max_steps=20000000)] +
                      # CACHEMIX: the versions are written through a node cache; one side is opened through it (1: old, 2: new), the other without a cache
@@ -115,7 +120,7 @@ PROPERTIES = {
     "C15": {
         "runs": {
             # KEEP=1: the versions are the in-process handles that have just been persisted (root = a name, or nil when emptied by Delete), not re-loaded trees
-            "quick": [H("HarnessC07a", b(N=2, K=2, MODE=m, KEEP=1)) for m in (1, 3)] + [H("HarnessC07a", b(N=3, K=1, MODE=1)), H("HarnessC07a", b(N=3, K=2, MODE=3)), H("HarnessC07a", b(N=3, K=2, MODE=7)), H("HarnessC07a", b(N=4, K=3, MODE=8)), H("HarnessC07a", b(N=3, K=4, MODE=9)),
+            "quick": [H("HarnessC07a", b(N=2, K=2, MODE=m, KEEP=1)) for m in (1, 3)] + [H("HarnessC07a", b(N=3, K=1, MODE=1)), H("HarnessC07a", b(N=3, K=2, MODE=3)), H("HarnessC07a", b(N=3, K=2, MODE=3, CMPSCALE=3)), H("HarnessC07a", b(N=3, K=2, MODE=7)), H("HarnessC07a", b(N=4, K=3, MODE=8)), H("HarnessC07a", b(N=3, K=4, MODE=9)),
                       # directed: concrete 33-entry tree of height 5 (ruler layers), one symbolic modification (any key, any layer <= 5)
                       H("HarnessC07a", b(N=33, K=1, MODE=1, LRULER=1, CONCRETEKEYS=1, Lmax=5), sample_every=20, max_steps=20000000)] +
                      # CACHEMIX: the versions are written through a node cache; one side is opened through it (1: old, 2: new), the other without a cache
@@ -287,7 +292,7 @@ PROPERTIES = {
         "runs": {
             "quick": [H("HarnessC03a", b(N=3, CACHE=0), sched=True, preempt=1, no_native=True), H("HarnessC03a", b(N=3, CACHE=1), sched=True, preempt=0, no_native=True), H("HarnessC03b", b(N=3))] +
                      # directed: 65 dirty nodes (> the 40-slot gate), one failing Store chosen symbolically, three deterministic schedules
-                     [H("HarnessC03a", b(N=65, CACHE=0, LRULER=1, CONCRETEKEYS=1, Lmax=6), policy=pol, no_native=True, conc_bound=128, max_steps=100000000) for pol in ("first", "rr", "last")],
+                     [H("HarnessC03a", b(N=65, CACHE=0, LRULER=1, CONCRETEKEYS=1, Lmax=6), policy=pol, no_native=True, conc_bound=128, max_steps=100000000, native_sweep=("failkey", 66)) for pol in ("first", "rr", "last")],
             "thorough": [H("HarnessC03a", b(N=3, CACHE=0), sched=True, preempt=2, no_native=True, sample_every=5000), H("HarnessC03a", b(N=4, CACHE=0), sched=True, preempt=1, no_native=True, sample_every=5000),
                          H("HarnessC03a", b(N=3, CACHE=1), sched=True, preempt=1, no_native=True, sample_every=5000), H("HarnessC03b", b(N=5), sample_every=100)],
         },
